@@ -1,5 +1,6 @@
 import Gomacro.Drv.Sem
 import Gomacro.TsGen
+import Gomacro.EndToEnd
 namespace Gomacro.Drv
 open Lean Gomacro.IR Gomacro.GoJson Gomacro.TsGen
 
@@ -40,5 +41,25 @@ def c03Check : Handler := fun j => do
         pure (encode env w 64 false t v)
     pure (Json.bool (inhabits tenv 64 (refTy env t) doc))
   return Json.mkObj [("inhabits", Json.arr res.toArray)]
+
+/-- op `c03.fragment`: is the program inside the fragment of the end-to-end theorem
+(`Props/C03E2E.lean`), and are the dumped values well-typed in the sense of its hypothesis? -/
+def c03Fragment : Handler := fun j => do
+  let env ← decEnv (← getObj j "env")
+  let w := decWrappers ((j.getObjVal? "wrappers").toOption.getD (Json.mkObj []))
+  let decls := generate env
+  let byId := decls.foldl (fun acc (p : String × TsDecl) => if acc.any (·.1 == p.1) then acc else acc ++ [p]) []
+  let tenv := tsEnvOf byId
+  let start := (env.source.flatMap Ty.refs).eraseDups
+  let ds := (reachAux env (env.decls.length + 1) start).filterMap env.find?
+  let bad := ds.filter fun d => !(E2E.declOk env w d) ||
+    !((E2E.needed env d).all fun p => E2E.lookupIs tenv p.1 p.2)
+  let vals ← (getListD j "values").mapM fun x => do
+    let t ← decTy (← getObj x "type")
+    let v ← decGoVal (← getObj x "val")
+    pure (Json.bool (E2E.hasType env 64 t v))
+  return Json.mkObj [("inFragment", Json.bool (E2E.fragmentB env w tenv ds)),
+    ("outside", strs (bad.map (·.name))), ("nameds", Json.bool w.nameds.isEmpty),
+    ("hasType", Json.arr vals.toArray)]
 
 end Gomacro.Drv
